@@ -2,6 +2,7 @@ package main
 
 import (
 	"fmt"
+	"strings"
 	"time"
 )
 
@@ -93,9 +94,19 @@ func genBalCfg(r *rng, j Journal, o genOpts, valued bool, structure bool) BalCfg
 
 func defaultOpts(r *rng) genOpts {
 	start, days := genSpan(r, 5, 300)
+	coms := allComs[:r.rangeInt(1, 4)]
+	if r.chance(10) {
+		// two commodities whose names differ only in the case of letters (legal and distinct: oz and OZ): any
+		// case-insensitive comparison makes them tie (seeded change C06d-commodity-compare-case-insensitive)
+		c := coms[len(coms)-1]
+		coms = append(append([]string{}, coms...), strings.ToLower(c))
+		if r.chance(40) {
+			coms = append(coms, c[:1]+strings.ToLower(c[1:]))
+		}
+	}
 	return genOpts{
 		nAccounts: r.rangeInt(5, 10), nTxn: r.rangeInt(3, 25),
-		commodities: allComs[:r.rangeInt(1, 4)], prices: true, accruals: r.chance(40), perf: r.chance(30),
+		commodities: coms, prices: true, accruals: r.chance(40), perf: r.chance(30),
 		assertions: r.chance(60), closes: r.chance(40),
 		startDate: start, days: days,
 		manyDec: r.chance(30),
